@@ -680,6 +680,7 @@ def _check(run, tmp):
     n_cli = 12 if quick else 300
     per_file = 40 if quick else 150
     # 1. witnesses of the known findings: re-observed now, on this tree
+    wit_cases = []
     for kf in load_known():
         w = kf.get("witness") or {}
         if "desc" not in w:
@@ -692,8 +693,10 @@ def _check(run, tmp):
                                                  "cli": w.get("cli", False)})
         else:
             run.notes.append("known finding %s no longer observed on its witness" % kf["signature"])
+        if not encodable(o):          # the witnesses are also correspondence cases (the 29/50 -> 57%% float case in particular)
+            wit_cases.append((w["desc"], case_term(w["desc"], o, w.get("cli", False))))
     # 2. generated reports
-    cases, dcases, descs, ddescs = [], [], [], []
+    cases, dcases, descs, ddescs = [c for _, c in wit_cases], [], [d for d, _ in wit_cases], []
     for i in range(n):
         size = rng.choice(["small", "small", "medium", "medium", "large"] if not quick else
                           ["small"] * 11 + ["medium"] * 7 + ["large"] * 2)
